@@ -122,6 +122,40 @@ def gen_module(rng, fmt, big=False):
                 magic=rng.choice(["M.K.", "M.K.", "M!K!"]) if (fmt == "mod" and chn == 4) else None)
 
 
+def gen_long_mod(rng):
+    """A Protracker M.K. module around the 8-minute mark (VBLANK_TIME_THRESHOLD of scan.c) with a low
+    Fxx (speed s) and a high Fxx (tempo t) on different rows of the first pattern: long enough, read
+    with CIA timing, for libxmp_scan_sequences to run its CIA-vs-VBlank comparison, with either
+    reading able to win (CIA row = s*2500/t ms, VBlank row = t*20 ms)."""
+    t = rng.choice([32, 33, 36, 40, 40, 45, 48, 50, 56, 64, rng.randint(32, 80)])
+    s = rng.choice([2, 3, 4, 6, 6, 8, 12, 16, 20, 24, 31, 31, rng.randint(2, 31)])
+    while 192 * t // s > 64 * 118:          # rows needed for 8 minutes must fit the order list
+        s += 1
+    rows_8min = 480000 * t // (2500 * s) + 1
+    factor = rng.choice([0.7, 0.95, 1.02, 1.05, 1.1, 1.2, 1.3])
+    ln = max(3, min(127, int(rows_8min * factor) // 64 + 1))
+    npat = rng.choice([1, 2, 3])
+    pats = []
+    for p in range(npat):
+        rows = [None] * 64
+        for r in range(2, 64):
+            if rng.random() < 0.01:
+                rows[r] = ("d", rng.choice([0, 1]), rng.randrange(4))
+        pats.append(rows)
+    r1, r2 = rng.sample(range(0, 8), 2)
+    pats[0][r1] = ("s", s, rng.randrange(4))
+    pats[0][r2] = ("t", t, rng.randrange(4))
+    orders = [0] + [rng.randrange(npat) for _ in range(ln - 1)]
+    if rng.random() < 0.3:
+        # end with a jump (to the start, to itself or beyond the end) in a pattern used only there
+        rows = [None] * 64
+        rows[63] = ("j", rng.choice([0, ln - 1, ln, 127]), rng.randrange(4))
+        pats.append(rows)
+        orders[-1] = len(pats) - 1
+    rst = rng.choice([0, 0, 0x7f, rng.randrange(ln)])
+    return dict(fmt="mod", chn=4, orders=orders, pats=pats, rst=rst, spd=6, bpm=125, magic="M.K.", style="long")
+
+
 # --------------------------------------------------------------------------
 # module writers (independent of libxmp)
 # --------------------------------------------------------------------------
@@ -474,7 +508,10 @@ def run(ck):
     mods = []
     for i in range(nmods):
         fmt = FORMATS[i % 4]
-        d = gen_module(ck.rng, fmt, big=(ck.rng.random() < 0.05))
+        if fmt == "mod" and (i < 32 if quick else ck.rng.random() < 0.05):
+            d = gen_long_mod(ck.rng)        # quick: 8 per run; thorough: ~5% of the MODs
+        else:
+            d = gen_module(ck.rng, fmt, big=(ck.rng.random() < 0.05))
         data, exp_orders = write_module(d)
         path = os.path.join(wd, "m%05d.%s" % (i, fmt))
         with open(path, "wb") as f:
@@ -495,7 +532,7 @@ def run(ck):
     bypath = {m[0]: m for m in mods}
     stats = dict(modules=0, sequences=0, multi_sequence_modules=0, frames=0, rows=0, capped=0, loadfail=0,
                  jumps_beyond_len=0, marker_orders=0, invalid_orders=0, restart_nonzero=0, one_row_patterns=0,
-                 nobpm=0, rejected_both=0, corpus_cases=0, oracle_failures=0, model_traces_agree=0, foreign_end=0)
+                 nobpm=0, long_mods=0, long_mods_vblank_reading_won=0, long_mods_cia_reading_kept=0, long_mods_below_threshold=0, rejected_both=0, corpus_cases=0, oracle_failures=0, model_traces_agree=0, foreign_end=0)
     per_fmt = {f: 0 for f in FORMATS}
     for (rc, out, err), sh in zip(results, shards):
         cases = parse_cases(out)
@@ -541,6 +578,17 @@ def run(ck):
                 continue
             if aux and " nobpm 1" in aux[0]:
                 stats["nobpm"] += 1
+            if d.get("style") == "long":
+                stats["long_mods"] += 1
+                af = aux[0].split() if aux else []
+                cmp_on = "cmpvbl" in af and af[af.index("cmpvbl") + 1] == "1"
+                dur0 = next((int(l.split()[5]) for l in c["lines"] if l.startswith("seq 0 ")), 0)
+                if cmp_on and " nobpm 1" in aux[0]:
+                    stats["long_mods_vblank_reading_won"] += 1
+                elif cmp_on and dur0 >= 480000:
+                    stats["long_mods_cia_reading_kept"] += 1
+                else:
+                    stats["long_mods_below_threshold"] += 1
             bad = loaded_matches_intended(d, exp_orders, c["model_in"]) if exp_orders is not None else None
             if exp_orders is None:
                 exp_orders = [int(x) for x in c["model_in"][1].split()[1:]]
@@ -605,7 +653,8 @@ def run(ck):
     ck.note("modules_per_format", per_fmt)
     ck.cov["rule"] = ("cases = random linear-flow modules (format, channels, order list incl. invalid entries / S3M-IT markers, pattern "
                       "count and lengths incl. 1-row patterns, speed 1..31 / tempo 32..255 / delay 0..15 / jump 0..255 effects on random "
-                      "channels, restart position, initial speed and tempo) generated from VERIF_SEED and written as real files; distinct by "
+                      "channels, restart position, initial speed and tempo; plus long Protracker M.K. MODs around the 8-minute CIA/VBlank "
+                      "comparison threshold of the scan, either reading winning) generated from VERIF_SEED and written as real files; distinct by "
                       "hash of the file; non-trivial = at least one flow effect or more than one sequence")
     ck.assumptions += [
         "time_factor = 10, rrate = 250, XMP_FLAGS_VBLANK off (checked per module by the harness)",
